@@ -27,7 +27,9 @@ variable {α : Type} [Add α] [OfNat α 0]
 def AggGraph.init (rows : List (List (Nat × α))) (outW inW : List α) : AggGraph α :=
   let n := rows.length
   { next := n
-    nb := (List.range n).map fun i => (i, (rows.getD i []).foldl (fun d (p : Nat × α) => d.set p.1 p.2) [])
+    -- `neighbors[i][j] = neighbors[i].get(j, 0.) + data / total`: duplicate entries of a non-canonical CSR matrix add up
+    nb := (List.range n).map fun i => (i, (rows.getD i []).foldl
+      (fun d (p : Nat × α) => d.set p.1 ((d.get? p.1).getD 0 + p.2)) [])
     sizes := (List.range n).map fun i => (i, 1)
     outW := (List.range n).map fun i => (i, outW.getD i 0)
     inW := (List.range n).map fun i => (i, inW.getD i 0) }
